@@ -10,6 +10,7 @@ CONSTANTS
   K = 7
   TailLen = 2
   Biased = FALSE
+  Focus = FALSE
   GenFaults <- F2
 VIEW GenView
 CONSTRAINT GenBound
